@@ -36,6 +36,22 @@ func calleeName(c *ssa.CallCommon) string {
 	case *ssa.MakeClosure:
 		return v.Fn.(*ssa.Function).String()
 	}
+	// dynamic call through a function value: name it after the source variable when there is one
+	switch v := c.Value.(type) {
+	case *ssa.Phi:
+		if v.Comment != "" {
+			return "dynamic." + v.Comment
+		}
+	case *ssa.UnOp:
+		if fa, ok := v.X.(*ssa.FieldAddr); ok {
+			if st, ok := fa.X.Type().Underlying().(*types.Pointer).Elem().Underlying().(*types.Struct); ok {
+				return "dynamic." + st.Field(fa.Field).Name()
+			}
+		}
+		if g, ok := v.X.(*ssa.Global); ok {
+			return "dynamic." + g.Name()
+		}
+	}
 	return "dynamic." + c.Value.Name()
 }
 
@@ -109,7 +125,15 @@ func (f *Frame) doCall(instr ssa.Instruction, c *ssa.CallCommon, args []Value, r
 	if e.contract != nil {
 		for si := range e.contract.Sites {
 			site := &e.contract.Sites[si]
-			if !matchPattern(site.Pattern, name) {
+			spat, sord := site.Pattern, -1
+			if k := strings.LastIndex(spat, "#"); k >= 0 {
+				fmt.Sscanf(spat[k+1:], "%d", &sord)
+				spat = spat[:k]
+			}
+			if !matchPattern(spat, name) {
+				continue
+			}
+			if sord >= 0 && e.siteCount(spat, instr) != sord {
 				continue
 			}
 			env := f.baseEnv(f.st)
@@ -241,13 +265,6 @@ func (f *Frame) dispatchCall(instr ssa.Instruction, c *ssa.CallCommon, args []Va
 		e.trust("library model (A7): " + name)
 		return m(f, instr, c, args, rt)
 	}
-	if e.contract != nil {
-		for _, pat := range e.contract.NoInline {
-			if matchPattern(pat, name) {
-				return f.unknownCall(instr, c, args, rt, name)
-			}
-		}
-	}
 	// contracts
 	if c.IsInvoke() && e.p.contracts.ByKey[name] == nil {
 		if alt := c.Method.FullName(); e.p.contracts.ByKey[alt] != nil {
@@ -280,7 +297,15 @@ func (f *Frame) dispatchCall(instr ssa.Instruction, c *ssa.CallCommon, args []Va
 		if ct := e.p.contracts.ByKey[callee.String()]; ct != nil && callee != c.StaticCallee() {
 			return f.applyContract(instr, ct, c, args, rt, callee.String())
 		}
-		if callee.Blocks != nil && f.canInline(callee) {
+		noinline := false
+		if e.contract != nil {
+			for _, pat := range e.contract.NoInline {
+				if matchPattern(pat, name) || matchPattern(pat, callee.String()) {
+					noinline = true
+				}
+			}
+		}
+		if callee.Blocks != nil && !noinline && f.canInline(callee) {
 			return f.inline(instr, callee, args, free, rt)
 		}
 	}
